@@ -2,13 +2,13 @@
 """store a confirmed seeded change: tools/store_seed.py <dir-name> <property> <wt-id> '<needs>' '<caught-by json>'"""
 import json, os, shutil, sys, re
 name, prop, wid, needs = sys.argv[1:5]
-out = "/tmp/wt/%s.out" % wid
+out = "%s/%s.out" % (os.environ.get("WTROOT", "/tmp/wt"), wid)
 dst = "/verif/seeded/%s" % name
 os.makedirs(dst, exist_ok=True)
 shutil.copy(out + "/patch.diff", dst + "/patch.diff")
 for f in os.listdir(out):
     if re.match(r"demo.*\.(c|h|sh|py)$", f) or f == "NOTES.md":
-        s = open(os.path.join(out, f), errors="replace").read().replace("/tmp/wt/%s.out" % wid, ".").replace("/tmp/wt/%s" % wid, "/tmp/ksi-seed")
+        s = open(os.path.join(out, f), errors="replace").read().replace(out, ".").replace(out[:-4], "/tmp/ksi-seed")
         open(os.path.join(dst, f), "w").write(s)
 w = open(out + "/demo.with.txt", errors="replace").read().strip().splitlines()
 wo = open(out + "/demo.without.txt", errors="replace").read().strip().splitlines()
